@@ -391,6 +391,7 @@ def _mtx_contract(tag):
                 invariants={
                     "is-table": f"self.otf.get('{tag}') is not None and {tag} == self.otf['{tag}']",
                     "done": f"all({rec('K[a]')} for a in range(i))",
+                    "later-absent": f"all(K[a] not in {MT} for a in range(i, len(K)))",
                     "keys": f"len({MT}) == i and all(list({MT})[a] == K[a] for a in range(i))",
                 },
             )
